@@ -579,9 +579,12 @@ func c14TwinHistory(c *Ctx, i int, r *gen.R) {
 			a := r.Intn(4)
 			if len(alignedCols) > 0 && r.Bool() {
 				// touch a column again that already has a setting; half of the time withdraw it
-				col = alignedCols[r.Intn(len(alignedCols))]
-				if r.Bool() {
-					a = 0
+				// (if it still exists: a shorter replacement header may legitimately have shrunk the table)
+				if old := alignedCols[r.Intn(len(alignedCols))]; old <= live.t.NColumns() {
+					col = old
+					if r.Bool() {
+						a = 0
+					}
 				}
 			}
 			if a != 0 {
